@@ -7,6 +7,7 @@ import H3.Drv.C06
 import H3.Drv.C13
 import H3.Drv.C05
 import H3.Drv.C17
+import H3.Drv.C01
 open H3.Drv
 
 def dispatch (ws : List String) : String :=
@@ -21,6 +22,7 @@ def dispatch (ws : List String) : String :=
     else if e == "set" then H3.Drv.C13.handle ws
     else if e == "cell" then H3.Drv.C05.handle ws
     else if e == "quinn" then H3.Drv.C17.handle ws
+    else if e == "e2e" then H3.Drv.C01.handle ws
     else "bad-op"
 
 partial def loop (h : IO.FS.Stream) (out : IO.FS.Stream) : IO Unit := do
